@@ -24,7 +24,7 @@ def make_plan(ths, tier, rnd):
         for b in chosen:
             plan.add(theory, b)
         for _ in range(120 if thorough else 25):
-            plan.add(theory, histories.random_history(sig, api, rnd, rnd.randint(4, 14), n))
+            plan.add(theory, histories.random_history(sig, api, rnd, (8 if theory == 'joins' else 0) + rnd.randint(4, 14), n))
         plan.notes[theory] = {"enumerated_histories": len(bodies), "replayed_of_those": len(chosen)}
     if thorough:
         modelcheck.add_generated_programs(plan, rnd, 40, 12, PROP)
